@@ -48,6 +48,9 @@ def run(ctx):
     n = C07.measurement_rule(ctx, 'R13.8')
     ctx.evaluated('R13.8', n, 42)
     C01.r2(ctx, 'R13.9')
+    # the record echoed for a detection is read back from the store after the update landed (clause R01.4 of C01): a record
+    # read before its merge is awaited echoes the histories of the previous frame
+    C01.r4(ctx, 'R13.10')
     import wiring
     ctx.rule('R13.7', 'the metric works with the configured bounds and thresholds themselves (builder hands '
                       'visual_max_observations, collect thresholds ... over unchanged); observations carry the given quality')
